@@ -341,3 +341,23 @@ Print Assumptions C09_more_rejections_outside_the_grammar.
 Example C09_rejected_expression_like_text : forall ps, ~ jp_rooted_text [53; 46; 101] ps.
 Proof. apply (rejected_not_rooted _ EOther). vm_compute. reflexivity. Qed.
 Print Assumptions C09_rejected_expression_like_text.
+
+(* ---- the parser model's recursion fuel (PathParseFuel.v).  PathParse.v threads a fuel through the mutual recursion of
+   expr_or / path (parentheses, exists(...), filters) and starts it at S (length input).  It is never decisive, on ANY input:
+   with any two fuels above the input length the parsers answer alike (an accepted result or the same rejection), so
+   parse_json_path is the parser at any larger fuel.  (Compared with the crate through the harness up to 2000 nested
+   parentheses / exists / filters: same answers; at about 5000 levels the crate itself overflows its stack — a resource limit
+   of the recursive-descent parser, outside the model.) ---- *)
+From JB Require Import PathParseFuel.
+Theorem C09_parser_fuel_is_never_decisive :
+  (forall f1 f2 bs, (length bs < f1)%nat -> (length bs < f2)%nat ->
+     (forall rp, expr_or_fuel f1 rp bs = expr_or_fuel f2 rp bs) /\ path_fuel f1 bs = path_fuel f2 bs) /\
+  (forall f bs, (length bs < f)%nat ->
+     parse_json_path bs = match json_path_fuel f bs with
+                          | POk [] ps => Ok ps
+                          | POk _ _ => Err EOther
+                          | PErr | PFail => Err EOther
+                          | PPanic => Panic
+                          end).
+Proof. exact (conj fuel_stable parse_json_path_any_fuel). Qed.
+Print Assumptions C09_parser_fuel_is_never_decisive.
